@@ -4,6 +4,7 @@ import (
 	"context"
 	"fmt"
 	"io"
+	"os"
 	"path/filepath"
 	"sync"
 	"time"
@@ -23,6 +24,7 @@ import (
 	"github.com/oxia-db/oxia/server/kv"
 	"github.com/oxia-db/oxia/server/wal"
 	"github.com/oxia-db/oxia/zzverif/vsched"
+	"github.com/oxia-db/oxia/zzverif/vtime"
 )
 
 // ---- per-node persistent Pebble filesystems -----------------------------------------
@@ -129,6 +131,20 @@ type Cluster struct {
 	// reach them); CoordCut nodes are only unreachable for the coordinator.
 	Isolated map[string]bool
 	CoordCut map[string]bool
+	// ReplCutFrom: the node cannot reach its peers for replication (as a leader), while
+	// the coordinator and the clients still reach it.
+	ReplCutFrom map[string]bool
+}
+
+// CutReplicationFrom severs the outgoing replication of a node.
+func (c *Cluster) CutReplicationFrom(name string) {
+	c.ReplCutFrom[name] = true
+	n := c.Nodes[name]
+	for _, st := range c.Repl.Streams {
+		if st.ownerGrp == n.Group {
+			st.Break()
+		}
+	}
 }
 
 // Isolate partitions a node away from the coordinator and the other nodes.
@@ -147,6 +163,7 @@ func (c *Cluster) Isolate(name string) {
 func (c *Cluster) Heal(name string) {
 	delete(c.Isolated, name)
 	delete(c.CoordCut, name)
+	delete(c.ReplCutFrom, name)
 	if c.Nodes[name].Up {
 		c.Repl.Down[name] = false
 	}
@@ -155,13 +172,13 @@ func (c *Cluster) Heal(name string) {
 func NewCluster(s *vsched.Sched, names []string, syncData bool) *Cluster {
 	kv.VerifMemTableSize = 1 << 20
 	c := &Cluster{S: s, Env: NewEnv(s), Nodes: map[string]*Node{}, Repl: NewNet(), SyncData: syncData, SegSize: 64 * 1024, nextGrp: 10,
-		Isolated: map[string]bool{}, CoordCut: map[string]bool{}}
+		Isolated: map[string]bool{}, CoordCut: map[string]bool{}, ReplCutFrom: map[string]bool{}}
 	c.Repl.Blocked = func(ownerGrp int, follower string) bool {
 		if c.Isolated[follower] {
 			return true
 		}
 		for name, n := range c.Nodes {
-			if n.Group == ownerGrp && c.Isolated[name] {
+			if n.Group == ownerGrp && (c.Isolated[name] || c.ReplCutFrom[name]) {
 				return true
 			}
 		}
@@ -266,9 +283,14 @@ func (c *Cluster) postMortem() {
 	}
 }
 
+var debugEvents = os.Getenv("VERIF_EVENTS") != ""
+
 func (c *Cluster) log(e Event) {
 	e.Step = c.S.Steps()
 	c.Events = append(c.Events, e)
+	if debugEvents {
+		fmt.Fprintf(os.Stderr, "EV %+v\n", e)
+	}
 	if c.OnRPC != nil {
 		c.OnRPC(e)
 	}
@@ -346,8 +368,13 @@ func (r *CoordRpc) BecomeLeader(ctx context.Context, node model.Server, req *pro
 	}
 	sent := r.c.S.Steps()
 	r.c.log(Event{Kind: "send:BecomeLeader", Node: node.Internal, Term: req.Term, Info: fmt.Sprint(req.FollowerMaps), FollowerMap: req.FollowerMaps})
-	resp, err := call(r.c, ctx, node.Internal, "BecomeLeader", func(n *Node) (*proto.BecomeLeaderResponse, error) {
-		return n.Srv.BecomeLeader(ctx, req.CloneVT())
+	// the coordinator's RPCs carry a 30 s deadline (coordinator/rpc: rpcTimeout); on virtual time
+	rctx, cancel := context.WithCancel(ctx)
+	defer cancel()
+	t := vtime.AfterFunc(30*time.Second, cancel)
+	defer t.Stop()
+	resp, err := call(r.c, rctx, node.Internal, "BecomeLeader", func(n *Node) (*proto.BecomeLeaderResponse, error) {
+		return n.Srv.BecomeLeader(rctx, req.CloneVT())
 	})
 	e := Event{Kind: "resp:BecomeLeader", Node: node.Internal, Term: req.Term, Err: errStr(err), SentStep: sent}
 	r.c.log(e)
